@@ -152,7 +152,12 @@ def run(ctx: Ctx) -> None:
         "every path. D17.8 the cutting dimension stays in {0, 1}, the "
         "search direction in {-1, +1}, the search steps to (sel_i + "
         "sel_dir) mod n, the bounded search advances when it wraps, and no "
-        "modulus is taken by a possibly-zero cut_modulus. Not decided: "
+        "modulus is taken by a possibly-zero cut_modulus. D17.9 every "
+        "deviation term of the similarity objective compares a statistic "
+        "of the instance with the same statistic of the template (as "
+        "defined in InstanceSpace.__init__), folds start neutral, rows are "
+        "penalised only outside the template's own range: the value is 0 "
+        "on the template. Not decided: "
         "lower_bound_bins == min_bins as a value (needs the validity of "
         "the DAMV bound, C03), Errors == 0 on the template, termination of "
         "phase 1's search when no item can be cut at all.")
@@ -220,6 +225,8 @@ def run(ctx: Ctx) -> None:
     ctx.rule("D17.8", "search protocol: domains of the cutting dimension "
              "and direction, full cyclic scan, safe moduli")
     _search_protocol(ctx, fi)
+    ctx.rule("D17.9", "the similarity objective is 0 on the template")
+    _zero_on_template(ctx)
     _clamps(ctx)
     ctx.assumptions += [
         "items are [width, height] lists; cut_dimension is 0 or 1",
@@ -1055,3 +1062,174 @@ def _search_protocol(ctx: Ctx, fi: FuncInfo) -> None:
            "modulus by cut_modulus happens under cut_modulus >= 1"
            if not problems else "; ".join(dict.fromkeys(problems)),
            construct="search for a cuttable item")
+
+
+# ------------------------------------------------------------------ D17.9
+def _zero_on_template(ctx: Ctx) -> None:
+    """Every deviation term of instgen.Errors compares a statistic of the
+    instance with the same statistic of the template."""
+    repo = ctx.repo
+    sp = repo.func(PKG + ".instance_space", "InstanceSpace.__init__")
+    er = repo.func(PKG + ".errors", "Errors.evaluate")
+
+    def src(n: ast.AST) -> str:
+        return ast.unparse(n).replace(" ", "")
+    srcp = sp.params[1]
+    # ---- what each attribute of the space is, in terms of the template
+    space_stat: dict[str, tuple] = {}
+    for n in ast.walk(sp.node):
+        if isinstance(n, (ast.Assign, ast.AnnAssign)) and n.value is not None:
+            tg = n.targets[0] if isinstance(n, ast.Assign) else n.target
+            if not (isinstance(tg, ast.Attribute) and src(tg.value)
+                    == "self"):
+                continue
+            v = n.value
+            while isinstance(v, ast.Call) and src(v.func) in (
+                    "check_int_range", "int") and v.args:
+                v = v.args[0]
+            if isinstance(v, ast.Attribute) and src(v.value) == srcp:
+                space_stat[tg.attr] = ("attr", v.attr)
+            elif isinstance(v, ast.Call) and src(v.func) in ("min", "max") \
+                    and len(v.args) == 1 and isinstance(
+                    v.args[0], ast.Subscript) and src(
+                    v.args[0].value) == srcp:
+                sl = v.args[0].slice
+                if isinstance(sl, ast.Tuple) and len(sl.elts) == 2 and \
+                        isinstance(sl.elts[0], ast.Slice):
+                    space_stat[tg.attr] = (src(v.func), src(sl.elts[1]))
+    # ---- the instance side
+    body = func_body(er)
+    inst = None
+    local: dict[str, str] = {}
+    for s in body:
+        if isinstance(s, (ast.Assign, ast.AnnAssign)) and s.value is not None:
+            tg = s.targets[0] if isinstance(s, ast.Assign) else s.target
+            if isinstance(tg, ast.Name):
+                local[tg.id] = src(s.value)
+                if "isinstance" in local[tg.id] and "[0]" in local[tg.id]:
+                    inst = tg.id
+    loop = next((s for s in body if isinstance(s, ast.For)), None)
+    problems: list[str] = []
+    if inst is None or loop is None:
+        ctx.ob("D17.9", er, er.node, False,
+               "Errors.evaluate structure not recognised",
+               construct="zero on the template")
+        return
+    rowv = src(loop.target)
+    rows_ok = src(loop.iter) in (f"range({inst}.n_different_items)",
+                                 "range(n_different)") and local.get(
+        "n_different", f"{inst}.n_different_items") == \
+        f"{inst}.n_different_items"
+    if not rows_ok:
+        problems.append("the statistics do not run over all rows of the "
+                        "instance")
+    col_of: dict[str, str] = {}
+    fold: dict[str, tuple] = {}
+    area_ok = False
+    for s in loop.body:
+        if isinstance(s, (ast.Assign, ast.AnnAssign)) and s.value is not None:
+            tg = s.targets[0] if isinstance(s, ast.Assign) else s.target
+            v = s.value
+            while isinstance(v, ast.Call) and src(v.func) == "int" and v.args:
+                v = v.args[0]
+            if isinstance(tg, ast.Name) and isinstance(
+                    v, ast.Subscript) and src(v.value) == inst and isinstance(
+                    v.slice, ast.Tuple) and src(v.slice.elts[0]) == rowv:
+                col_of[tg.id] = src(v.slice.elts[1])
+            elif isinstance(tg, ast.Name) and isinstance(
+                    v, ast.Call) and src(v.func) in ("min", "max") and len(
+                    v.args) == 2 and tg.id in [src(a) for a in v.args]:
+                other = [src(a) for a in v.args if src(a) != tg.id]
+                if len(other) == 1:
+                    fold[tg.id] = (src(v.func), col_of.get(other[0], "?"))
+        if isinstance(s, ast.AugAssign) and isinstance(s.op, ast.Add) and \
+                src(s.target) == "total_area":
+            names = sorted(col_of.get(x.id, x.id) for x in ast.walk(s.value)
+                           if isinstance(x, ast.Name))
+            area_ok = names == ["IDX_HEIGHT", "IDX_REPETITION", "IDX_WIDTH"]\
+                and all(isinstance(x, (ast.Name, ast.BinOp, ast.Mult,
+                                       ast.Load))
+                        for x in ast.walk(s.value))
+    # initial values of the folds must be neutral
+    for v, (kind, c) in fold.items():
+        init = local.get(v, "")
+        neutral = (kind == "max" and init == "0") or (
+            kind == "min" and init in ("space.bin_width", "space.bin_height")
+            and ("WIDTH" in c) == init.endswith("width"))
+        if not neutral:
+            problems.append(f"`{v}` starts at `{init}`, which is not "
+                            f"neutral for the {kind} over column {c}")
+    # ---- every |A - B| term pairs matching statistics
+    n_terms = 0
+    for s in ast.walk(er.node):
+        if isinstance(s, ast.AugAssign) and src(s.target) == "errors" and \
+                isinstance(s.value, ast.Call) and src(s.value.func) == "abs":
+            d = s.value.args[0]
+            if not (isinstance(d, ast.BinOp) and isinstance(d.op, ast.Sub)):
+                problems.append(f"`{src(s)}` is not a difference")
+                continue
+            n_terms += 1
+            a, b = src(d.left), src(d.right)
+            a = local.get(a, a) if a in local and a not in fold and \
+                a != "total_area" else a
+            b = local.get(b, b) if b in local and b not in fold else b
+            if not b.startswith("space."):
+                a, b = b, a
+            attr = b[len("space."):] if b.startswith("space.") else None
+            st = space_stat.get(attr or "")
+            if st is None:
+                problems.append(f"`{src(s)}`: the goal `{b}` is not an "
+                                "attribute computed from the template")
+                continue
+            if a.startswith(inst + "."):
+                ok = st == ("attr", a[len(inst) + 1:])
+            elif a in fold:
+                ok = st == fold[a]
+            elif a == "total_area":
+                ok = st == ("attr", "total_item_area") and area_ok
+            else:
+                ok = False
+            if not ok:
+                problems.append(
+                    f"`{src(s)}` compares `{a}` with the template's "
+                    f"{st}: not the same statistic")
+    if n_terms < 9:
+        problems.append(f"only {n_terms} deviation terms found (bin width, "
+                        "bin height, n_items, n_different, 4 extremes, "
+                        "area)")
+    # ---- range penalties only for rows outside the goal range
+    for s in ast.walk(loop):
+        if isinstance(s, ast.If):
+            chain = [s] + ([s.orelse[0]] if len(s.orelse) == 1 and isinstance(
+                s.orelse[0], ast.If) else [])
+            for c in chain:
+                t = c.test
+                if not (isinstance(t, ast.Compare) and len(t.ops) == 1 and
+                        len(c.body) == 1 and isinstance(
+                        c.body[0], ast.AugAssign)):
+                    continue
+                w, g = src(t.left), src(t.comparators[0])
+                gv = local.get(g, g)
+                st = space_stat.get(gv[len("space."):]) if gv.startswith(
+                    "space.") else None
+                amt = c.body[0].value
+                names = {x.id for x in ast.walk(amt)
+                         if isinstance(x, ast.Name)}
+                lo = isinstance(t.ops[0], ast.Lt)
+                hi = isinstance(t.ops[0], ast.Gt)
+                okp = st is not None and col_of.get(w) == st[1] and (
+                    (lo and st[0] == "min") or (hi and st[0] == "max")) \
+                    and {w, g} <= names
+                if not okp:
+                    problems.append(
+                        f"`if {src(t)}: {src(c.body[0])}` is not a penalty "
+                        "for leaving the template's range of that "
+                        "dimension")
+    ctx.ob("D17.9", er, er.node, not problems,
+           f"all {n_terms} deviation terms compare a statistic of the "
+           "instance with the same statistic of the template (attributes, "
+           "min/max folds over the same column with neutral start values, "
+           "sum of n*w*h), and rows are only penalised outside the "
+           "template's own range: every term vanishes on the template"
+           if not problems else "; ".join(dict.fromkeys(problems))[:900],
+           construct="zero on the template")
